@@ -40,6 +40,8 @@ type Case struct {
 	Mount      bool
 	Prepop     int  // percentage of the closure already at the target
 	PrepopAll  bool // the identical image (incl. tag) is already there
+	Again      bool   `json:",omitempty"` // fault runs: the same client copies once more afterwards, with no fault
+	Cache      bool   `json:",omitempty"` // the client caches responses (reg.WithCache), as regctl and regsync do
 	DirPre     string `json:",omitempty"` // layout targets: "blobs" (a subset of the blobs), "all" (the identical image), "listed" (index.json lists the image under the tag but its manifest file is gone)
 	StaleTag   bool
 	Recursive  bool
@@ -151,8 +153,11 @@ func build(c Case, dir string) (*world, error) {
 	}
 	hosts := []config.Host{{Name: "src.example", Hostname: "src.example", TLS: config.TLSDisabled}, {Name: "tgt.example", Hostname: "tgt.example", TLS: config.TLSDisabled},
 		{Name: "external.example", Hostname: "external.example", TLS: config.TLSDisabled}}
-	w.rc = regclient.New(regclient.WithConfigHosts(hosts),
-		regclient.WithRegOpts(reg.WithHTTPClient(&http.Client{Transport: w.rt}), reg.WithDelay(time.Millisecond, 3*time.Millisecond), reg.WithRetryLimit(3)))
+	regOpts := []reg.Opts{reg.WithHTTPClient(&http.Client{Transport: w.rt}), reg.WithDelay(time.Millisecond, 3*time.Millisecond), reg.WithRetryLimit(3)}
+	if c.Cache {
+		regOpts = append(regOpts, reg.WithCache(5*time.Minute, 500))
+	}
+	w.rc = regclient.New(regclient.WithConfigHosts(hosts), regclient.WithRegOpts(regOpts...))
 	ctx := context.Background()
 	// referrers: push artifacts through the API into the source (creates fallback tags when needed)
 	for _, a := range w.g.Refs {
@@ -418,6 +423,78 @@ func run(c Case, dir string, res *lib.Result) (ret string) {
 	if c.External {
 		opts = append(opts, regclient.ImageWithIncludeExternal())
 	}
+	// a fault run may be followed by a second copy through the SAME client, with no fault: whatever the first one left
+	// behind (caches, feature flags, backoff state, partial content), a copy that now reports success is complete and
+	// was written children first
+	if c.Again && c.Kind == "fault" {
+		defer func() {
+			w.mu.Lock()
+			w.hook = nil
+			w.mu.Unlock()
+			var before []memreg.PutRecord
+			if w.tgtIsReg() {
+				w.tgt.Lock()
+				before = append(before, w.tgt.Puts...)
+				w.tgt.Unlock()
+			}
+			ctx2, cancel2 := context.WithTimeout(context.Background(), 20*time.Second)
+			defer cancel2()
+			err2 := w.rc.ImageCopy(ctx2, w.srcRef, w.tgtRef, opts...)
+			res.Count(fmt.Sprintf("again:%s:ok=%v", c.Pair, err2 == nil))
+			if err2 != nil {
+				if ctx2.Err() == nil {
+					res.Fail("second-copy-fails pair="+c.Pair, fmt.Sprintf("after a copy with injected faults, a second copy through the same client with no fault failed: %v", err2), c)
+				}
+				return
+			}
+			root := w.g.Root
+			if t := w.tgtTag(); t != root.Digest {
+				res.Fail("success-but-tag-wrong second-copy pair="+c.Pair, fmt.Sprintf("the second ImageCopy returned nil but the target tag resolves to %q, source is %s", t, root.Digest), c)
+			}
+			for d, n := range imgen.Closure(root, c.External) {
+				if b, ok := w.tgtHas(d); !ok || string(b) != string(n.Body) {
+					res.Fail("success-but-incomplete second-copy pair="+c.Pair, fmt.Sprintf("the second ImageCopy through the same client returned nil but %s %s is missing or differs at the target", n.Kind, d), c)
+					break
+				}
+			}
+			if c.Referrers && c.Pair != "samerepo" {
+				for _, a := range w.g.Refs {
+					for d, n := range imgen.Closure(a, false) {
+						if b, ok := w.tgtHas(d); !ok || string(b) != string(n.Body) {
+							res.Fail("success-but-referrer-missing second-copy pair="+c.Pair, fmt.Sprintf("referrers requested, the second ImageCopy returned nil but %s %s (referrer %s) is not at the target", n.Kind, d, short(a.Digest)), c)
+							break
+						}
+					}
+				}
+			}
+			if w.tgtIsReg() {
+				clo := imgen.Closure(root, c.External)
+				w.tgt.Lock()
+				puts := append([]memreg.PutRecord(nil), w.tgt.Puts...)
+				w.tgt.Unlock()
+				for _, p := range puts[len(before):] {
+					if p.Repo != w.tgtRepo {
+						continue
+					}
+					node := clo[p.Digest]
+					for _, m := range p.Missing {
+						foreign := false
+						if node != nil {
+							for i, ch := range node.Children {
+								if ch.Digest == m && node.Foreign[i] {
+									foreign = true
+								}
+							}
+						}
+						if !foreign {
+							res.Fail("parent-before-child second-copy pair="+c.Pair, fmt.Sprintf("second copy: manifest %s (%s) was pushed while %s was not at the target", short(p.Digest), p.Ref, short(m)), c)
+							break
+						}
+					}
+				}
+			}
+		}()
+	}
 	// faults / cancellation
 	cctx, ccancel := context.WithCancel(ctx)
 	defer ccancel()
@@ -428,6 +505,20 @@ func run(c Case, dir string, res *lib.Result) (ret string) {
 			// fallback tag), and a 404 on the fallback tag (<alg>-<hex>) is how it says "no referrers": the client can
 			// not tell either from the injected answer, so the fault is not injected on those two requests
 			if c.FaultKind == "404" && (strings.Contains(req.URL.Path, "/referrers/") || strings.Contains(req.URL.Path, "/manifests/sha256-")) {
+				return nil
+			}
+			// targeted faults: every push of a manifest by digest (a child of the image), or every referrers request, fails
+			// for the whole of the first copy
+			if c.FaultKind == "childput" {
+				if req.Method == "PUT" && strings.Contains(req.URL.Path, "/manifests/sha256:") {
+					return memrt.Resp(500, nil, nil)
+				}
+				return nil
+			}
+			if c.FaultKind == "referrers" {
+				if strings.Contains(req.URL.Path, "/referrers/") {
+					return memrt.Resp(500, nil, nil)
+				}
 				return nil
 			}
 			if n >= c.FaultAt && faults < c.FaultN {
@@ -859,6 +950,8 @@ func genCase(r *lib.Rand, focus string) Case {
 	c.RefAPI = r.Bool()
 	c.Latency = r.Chance(60)
 	c.XGraph = r.Chance(30)
+	c.Cache = r.Chance(40)
+	c.Again = r.Chance(50)
 	if (c.Pair == "reg2dir" || c.Pair == "dir2dir") && r.Chance(40) {
 		c.DirPre = lib.Pick(r, []string{"blobs", "blobs", "all", "listed"})
 	}
@@ -934,6 +1027,16 @@ func Run(focus string) func(o lib.Opts) {
 		if focus == "C03" {
 			for i := uint64(0); i < 6; i++ { // layout targets that already list the image: complete, or with the manifest file gone
 				all = append(all, Case{Kind: "copy", Seed: 4400 + i, Pair: lib.Pick(r, []string{"reg2dir", "dir2dir"}), DirPre: lib.Pick(r, []string{"listed", "listed", "all"}), Referrers: i%3 == 0, RefAPI: true})
+			}
+		}
+		if focus == "C03" || focus == "C04" {
+			// a first copy in which every child manifest push (or every referrers request) fails, then a second copy
+			// through the same client
+			for i := uint64(0); i < 8; i++ {
+				all = append(all, Case{Kind: "fault", Seed: 4500 + i, Pair: lib.Pick(r, []string{"regreg", "samereg", "dir2reg"}), FaultKind: "childput", Again: true, Cache: i%4 != 3, Latency: i%2 == 0})
+			}
+			for i := uint64(0); i < 6; i++ {
+				all = append(all, Case{Kind: "fault", Seed: 4600 + i, Pair: lib.Pick(r, []string{"regreg", "reg2dir"}), FaultKind: "referrers", Again: true, Cache: i%2 == 0, Referrers: true, RefAPI: true})
 			}
 		}
 		if focus == "C03" || focus == "C04" {
